@@ -76,6 +76,9 @@ structure St where
   /-- `_release_tasks` -/
   pending : List Nat
   closed : Nat → Nat → Bool
+  /-- ghost (never read by a transition): the peer closed connection `(k, n)` after the last
+  `ConnectionPool.clean` sweep -/
+  dirty : Nat → Nat → Bool
   /-- a `KeyError` the real code would raise (`busy.remove`, `_host_pools[key]`) -/
   err : Bool
   /-- events of the last step (co-simulation only) -/
@@ -94,7 +97,7 @@ def init (M maxCount nkeys : Nat) (progs : List (List Round)) : St :=
     pc := fun t => if t < progs.length then .start else .done,
     prog := fun t => progs.getD t [],
     creq := fun _ => false, nrels := 0, relConn := fun _ => (0, 0), relDone := fun _ => true,
-    pending := [], closed := fun _ _ => true, err := false, evs := [] }
+    pending := [], closed := fun _ _ => true, dirty := fun _ _ => false, err := false, evs := [] }
 
 def setHost (s : St) (k : Nat) (h : Host) : St := { s with host := upd s.host k h }
 
@@ -187,7 +190,7 @@ def cleanAll (s : St) (force : Bool) : St :=
         else (s.host k).ready }
   let closed' : Nat → Nat → Bool := fun k n =>
     if force && decide (k ∈ s.present) && decide (n ∈ (s.host k).ready) then true else s.closed k n
-  { s with host := host', closed := closed',
+  { s with host := host', closed := closed', dirty := fun _ _ => false,
            present := s.present.filter (fun k => !hostEmptyIdle (host' k)) }
 
 /-- `HostPool.release` (busy -> ready, notify). -/
@@ -273,7 +276,8 @@ def step (s : St) (a : Act) : Option St :=
     | .done => some s
     | .cancelled => some s
     | _ => some { s with creq := upd s.creq t true }
-  | .rclose k n => some { s with closed := upd s.closed k (upd (s.closed k) n true) }
+  | .rclose k n => some { s with closed := upd s.closed k (upd (s.closed k) n true),
+                                  dirty := upd s.dirty k (upd (s.dirty k) n true) }
 
 /-- Run a schedule. -/
 def run (s : St) : List Act → Option St
